@@ -449,6 +449,20 @@ def _gen_c10(r, seed, child=False):
             lines.append(G.expand(r, r.choice(G.LINES_A4), ctx))
     if r.random() < 0.05:
         lines.insert(r.randint(0, len(lines)), GC.boundary_line(r, ctx, boundary=r.choice([8192, 65536, 65536]), words=True))
+    if o["pwd"] and r.random() < 0.4:
+        # a reserved word in a secret position stays as it is - also after the run has met a Juniper secret whose clear
+        # text is that very word, the word as a listed sensitive word's container, or the word in another case
+        rword = r.choice(GC.RESERVED_BASES + ["accept", "access", "aaa"] + user_res)
+        at = r.randint(0, len(lines))
+        lines.insert(at, {"segs": [["lit", r.choice(["snmp-server community ", "radius-server key ", " username admin password "])],
+                                   ["rsec", rword], ["lit", r.choice(["", "", " ro 1"])]], "eol": "\n"})
+        if r.random() < 0.7:
+            sid = str(len(secrets))
+            secrets[sid] = {"cls": "j9p", "a": rword, "b": rword}
+            lines.insert(r.randint(0, at), {"segs": [["lit", r.choice(["radius-server key ", "tacacs-server key "])],
+                                                     ["sec", "", {"id": int(sid), "kind": "keep", "enc": "j9", "salt": r.choice(G.J9_ALPHA),
+                                                                  "fill": r.choice("nQz7i")}]],
+                                            "eol": "\n", "kind": "keep", "tmpl": "radius-server key {}"})
     n = len(o["words"])
     low = sorted({w.lower() for w in o["words"]})
     if len(low) <= 3:
@@ -480,7 +494,7 @@ def _check_c10(plan):
     V = []
     o = plan["opts"]
     probes = {"orders": len(plan["orders"]), "style_" + plan["style"]: 1, "w_occurrences": 0, "rw_tokens": 0,
-              "near_miss_tokens": 0, "prehistory_execs": 0, "set_seam_entered": 0, "pseudonyms_seen": 0, "unextractable": 0}
+              "near_miss_tokens": 0, "reserved_secret_slots": 0, "prehistory_execs": 0, "set_seam_entered": 0, "pseudonyms_seen": 0, "unextractable": 0}
     words = [w.lower() for w in o["words"]]
     overlapping = any(a != b and a in b for a in words for b in words)
     from .proc import SimProcess
@@ -554,7 +568,7 @@ def _check_c10(plan):
             if ln_no >= len(olines):
                 break
             roles = {s[0] for s in ln["segs"]}
-            if not roles & {"w", "rw", "near"}:
+            if not roles & {"w", "rw", "near", "rsec"}:
                 continue
             toks = extract(ln, olines[ln_no], plan["secrets"], True)
             if toks is None:
@@ -566,6 +580,12 @@ def _check_c10(plan):
                     if tok != seg[1] and seg[1] in reserved:
                         V.append({"prop": "C10", "tag": "reserved-token-changed",
                                   "detail": "%s: token %r is exactly a reserved word but came out as %r" % (label, seg[1], tok)})
+                elif seg[0] == "rsec":
+                    probes["reserved_secret_slots"] += 1
+                    if tok != seg[1] and seg[1] in reserved:
+                        V.append({"prop": "C10", "tag": "reserved-secret-changed",
+                                  "detail": "%s: the secret value %r is a reserved word but came out as %r (output line %d %r)" % (
+                                      label, seg[1], tok, ln_no, olines[ln_no][:100])})
                 elif seg[0] == "near":
                     probes["near_miss_tokens"] += 1
                 elif seg[0] == "w":
